@@ -237,6 +237,55 @@ def run_shared_subtree(_case):
     return translate(build(md2, fresh_base))
 
 
+def run_interleaved(case):
+    """The two calls of one translation (apply_ast_transformations, write_cpp_files) with another query's transformation in
+    between on the same executor, and one transformed query written twice.  Returns the package under test."""
+    import logging
+    import shutil
+    import tempfile
+    logging.disable(logging.CRITICAL)
+    from ..tv.translate import make_executor, parse_query
+    kind = case[0]
+    md_a = {"metadata_type": "add_job_script", "name": "blk_a", "script": ["option_a = 1"], "depends_on": []}
+    md_b = {"metadata_type": "add_job_script", "name": "blk_b", "script": ["option_b = 2"], "depends_on": []}
+    inj_a = dict(INJECT, name="inj_a", body_includes=["a_only.h"], private_members=["int a_member;"], link_libraries=["aLib"])
+    inj_b = dict(INJECT, name="inj_b", body_includes=["b_only.h"], private_members=["int b_member;"], link_libraries=["bLib"])
+    qa = q([md_a, inj_a], GOOD_BODY)
+    qb = q([md_b, inj_b], "lambda e: e.Jets('B').Count()")
+
+    def write(exe, a):
+        d = Path(tempfile.mkdtemp(prefix="c07i"))
+        try:
+            exe.write_cpp_files(a, d)
+            return {"outcome": "ok", "files": canonical({p_.name: p_.read_text() for p_ in d.iterdir() if p_.is_file()})}
+        except Exception as e:  # noqa: BLE001
+            return {"outcome": "raised", "exc": type(e).__name__, "msg": str(e)[:200]}
+        finally:
+            shutil.rmtree(d, ignore_errors=True)
+    exe = make_executor("atlas")
+    if kind == "fresh":
+        return write(exe, exe.apply_ast_transformations(parse_query(qa)))
+    if kind == "interleaved":
+        a1 = exe.apply_ast_transformations(parse_query(qa))
+        exe.apply_ast_transformations(parse_query(qb))          # another query is transformed before the first one is written
+        return write(exe, a1)
+    if kind == "written_twice":
+        a1 = exe.apply_ast_transformations(parse_query(qa))
+        write(exe, a1)
+        return write(exe, a1)                                     # the same transformed query written a second time
+    raise ValueError(kind)
+
+
+_INTER_CASES = [("fresh",), ("interleaved",), ("written_twice",)]
+
+
+def _wrap_inter(i):
+    try:
+        return run_interleaved(_INTER_CASES[i])
+    except Exception as e:  # noqa: BLE001
+        return {"error": f"{type(e).__name__}: {e}"}
+
+
 def _wrap_shared(i):
     try:
         return run_shared_subtree(_SHARED_CASES[i])
@@ -456,6 +505,26 @@ def main():
                       f"package differs from the one a fresh parse gives ({diff or (fr.get('outcome'), sh_.get('outcome'))}) - the earlier translation rewrote the shared nodes", d)
     else:
         rep.discharged += 1
+    # the two calls of one translation with another transformation in between / one transformed query written twice
+    with ctx_.Pool(3, maxtasksperchild=1) as pool_:
+        fr_i, il_i, tw_i = pool_.map(_wrap_inter, range(3), chunksize=1)
+    ikfs = {f["id"]: f for f in load_known_findings("C07") if f.get("status") == "known" and f.get("interleaving")}
+    for label, got in (("interleaved", il_i), ("written_twice", tw_i)):
+        rep.obligations += 1
+        if "error" in fr_i or "error" in got:
+            rep.inconc(f"{label} scenario", fr_i.get("error") or got.get("error"))
+        elif got != fr_i:
+            diff = [k for k in (fr_i.get("files") or {}) if (got.get("files") or {}).get(k) != fr_i["files"][k]] if fr_i.get("outcome") == got.get("outcome") == "ok" else []
+            kf_ = next((f for f in ikfs.values() if f["interleaving"] == label), None)
+            if kf_ is not None and set(diff) <= set(kf_.get("files", [])) and diff:
+                rep.known(kf_["id"], kf_["what"][:200] + f" | observed: {label}: files {diff} differ from the fresh package")
+                continue
+            d = REPLAYS / "C07" / f"scenario_{label}"
+            d.mkdir(parents=True, exist_ok=True)
+            (d / "finding.json").write_text(json.dumps({"scenario": label, "fresh": fr_i.get("outcome"), "got": got.get("outcome"), "files_differ": diff}, indent=1))
+            rep.violation(f"scenario {label}: the package written for the query differs from the one a fresh executor gives ({diff or (fr_i.get('outcome'), got.get('outcome'))})", d)
+        else:
+            rep.discharged += 1
     # supporting observation (not a solver claim): registries after each single operation vs the fresh state
     st = results[len(cases):]
     s0 = st[0].get("state", {})
